@@ -131,6 +131,10 @@ EXTRA7 = {'C03': ' Round 10: blanks between digits; zero-padded lengths of 21 an
 for _k, _v in EXTRA7.items():
     C[_k]["text"] += _v
 
+EXTRA8 = {'C03': ' Round 11: quoted parameter values with commas around the word chunked (found F24).', 'C06': ' Round 11: the coding declared in Transfer-Encoding next to a Content-Encoding field that names something else.', 'C09': ' Round 11: bounds of 21, 30 and 100 with chains that use them.', 'C16': ' Round 11: default_charset(None) after Some(..) on request, builder, clone and session.', 'C17': ' Round 11: an address the kernel rejects at once ahead of the accepting one.'}
+for _k, _v in EXTRA8.items():
+    C[_k]["text"] += _v
+
 PENDING = {
 }
 all_ids = [f"C{i:02d}" for i in range(1, 20)]
